@@ -44,6 +44,14 @@ History syntax (one S-expression per case, parsed by lean/KrroodVerif/Drive/SG.l
     (qabandon c)   it = iter(an(entity(x, x.label >= 0)).evaluate()) with x = let(C, None); one next(it); the iterator and
                    the query are dropped: an evaluation that is ABANDONED after its first result
                    (for the registry both are evaluations: they sweep when they start to run and pin nothing afterwards)
+    (queryp c e)   x, y = let(C, None), let(C, None); list(an(set_of([x, y], P(x, y))).evaluate()) where P is a user-defined
+                   `Predicate` subclass (e = 0), one flagged `is_expensive = True` (e = 1), or a `@symbolic_function` (e = 2)
+                   over the labels of its two arguments      (querypd c e o ...)  the same with x, y = let(C, [o, ...])
+    (queryr c s)   a RULE query with a conclusion: x = let(C, None); p = let(View, None) (s = 0) or the inferred variable
+                   inference(View)() (s = 1); q = an(entity(p, x.label >= 0)); with q: Add(p, inference(Item)(a=x));
+                   list(q.evaluate()), then everything (the Items the evaluation created included) is dropped
+                   (for the registry all of these are evaluations over C: they sweep when they start to run; the predicate
+                   instances / Items they create are temporaries of krrood's own and are not probed as dead wrappers)
 Objects are only ever named by harness-assigned labels (never ids or reprs).
 
 Class indices: 0 Thing, 1 Org(Thing), 2 Emp(Thing), 3 Mgr(Emp), 4 A(Thing), 5 B(A), 6 C(A), 7 D(B, C),
@@ -369,6 +377,61 @@ Chair.manages = Manages(Chair, "manages")
     return _SCHEMA
 
 
+_EXTRAS = None
+
+EXTRAS_SOURCE = '''
+from __future__ import annotations
+from dataclasses import dataclass
+from typing_extensions import ClassVar, Any
+
+@dataclass(eq=False)
+class Near(Predicate):
+    """an ordinary user-defined predicate"""
+    left: Any
+    right: Any
+
+    def __call__(self) -> bool:
+        return abs(self.left.label - self.right.label) <= 1
+
+@dataclass(eq=False)
+class NearCostly(Predicate):
+    """a user-defined predicate its author flags as costly"""
+    is_expensive: ClassVar[bool] = True
+    left: Any
+    right: Any
+
+    def __call__(self) -> bool:
+        return abs(self.left.label - self.right.label) <= 1
+
+@symbolic_function
+def near(left, right) -> bool:
+    return abs(left.label - right.label) <= 1
+
+@dataclass(eq=False)
+class View(Symbol):
+    pass
+
+@dataclass(eq=False)
+class Item(View):
+    a: Any = None
+'''
+
+
+def extras():
+    """user-defined predicates (plain / flagged expensive / a symbolic function) and the classes a rule query infers; defined
+    on first use, once per process"""
+    global _EXTRAS
+    if _EXTRAS is None:
+        import types
+        from krrood.entity_query_language.predicate import Symbol, Predicate, symbolic_function
+        mod = types.ModuleType("krrood_verif_sg_extras")
+        mod.__dict__.update(Symbol=Symbol, Predicate=Predicate, symbolic_function=symbolic_function)
+        sys.modules["krrood_verif_sg_extras"] = mod
+        exec(compile(EXTRAS_SOURCE, "krrood_verif_sg_extras", "exec"), mod.__dict__)
+        _EXTRAS = mod
+    return _EXTRAS
+
+
 def _structure_sizes():
     """sizes of the krrood-held structures the properties name (absent structure = size 0)"""
     from krrood.entity_query_language.symbol_graph import SymbolGraph
@@ -570,6 +633,34 @@ class Runner:
         gc.collect()
         self.op_probe()
 
+    def op_queryp(self, c: int, e: int, dom: Optional[List[int]]):
+        from krrood.entity_query_language.entity import let, set_of
+        from krrood.entity_query_language.quantify_entity import an
+        X = extras()
+        pred = (X.Near, X.NearCostly, X.near)[e]
+        cls = self.classes[c]
+        d = None if dom is None else [self.wrefs[o]() for o in dom if self._alive(o)]
+        x = let(cls, d)
+        y = let(cls, None if d is None else list(d))
+        q = an(set_of([x, y], pred(x, y)))
+        res = list(q.evaluate())
+        del res, q, x, y, d
+        gc.collect()
+
+    def op_queryr(self, c: int, s: int):
+        from krrood.entity_query_language.entity import entity, let, inference
+        from krrood.entity_query_language.quantify_entity import an
+        from krrood.entity_query_language.conclusion import Add
+        X = extras()
+        x = let(self.classes[c], None)
+        p = inference(X.View)() if s else let(X.View, None)
+        q = an(entity(p, x.label >= 0))
+        with q:
+            Add(p, inference(X.Item)(a=x))
+        res = list(q.evaluate())
+        del res, q, x, p
+        gc.collect()
+
     def op_manage(self, o: int, g: int):
         if not (self._alive(o) and self._alive(g)):
             return
@@ -650,10 +741,14 @@ class Runner:
     def op_qdrain(self, k: int):
         st = self.iters.get(k)
         bound = 10000
+        # an evaluation that was suspended (qnext) before it is drained may legitimately leave wrappers of instances behind
+        # that died while it was suspended (until the next sweep): the dead wrappers are counted only when the drain runs
+        # the evaluation from its start
+        fresh = st is not None and not st["started"]
         while st is not None and st["status"] == "open" and bound:
             self.op_qnext(k)
             bound -= 1
-        if st is not None:
+        if fresh:
             self.op_probe()
 
     def op_probe(self):
@@ -854,6 +949,12 @@ class Runner:
             self.op_queryf(int(op[1]), None)
         elif name == "queryfd":
             self.op_queryf(int(op[1]), [int(x) for x in op[2:]])
+        elif name == "queryp":
+            self.op_queryp(int(op[1]), int(op[2]), None)
+        elif name == "querypd":
+            self.op_queryp(int(op[1]), int(op[2]), [int(x) for x in op[3:]])
+        elif name == "queryr":
+            self.op_queryr(int(op[1]), int(op[2]))
         elif name == "manage":
             self.op_manage(int(op[1]), int(op[2]))
         elif name == "newholder":
@@ -1017,6 +1118,8 @@ def shift_op(op, d: int):
         return [n, int(op[1]) + d, op[2]] + [_sh(x, d) for x in op[3:]]
     if n in ("queryd", "queryfd"):
         return [n, op[1]] + [_sh(x, d) for x in op[2:]]
+    if n == "querypd":
+        return [n, op[1], op[2]] + [_sh(x, d) for x in op[3:]]
     return op
 
 
@@ -1055,7 +1158,8 @@ def run_case(kind: str, line: str) -> str:
             r.run_ops(pre)
             names = [op[0] for op in body if isinstance(op, list) and op]
             decl_only = any(nm in ("mkq", "mkqd") for nm in names) and not any(
-                nm in ("evalq", "query", "queryd", "qstart", "qnext", "qdrain", "queryf", "queryfd", "qfail", "qabandon")
+                nm in ("evalq", "query", "queryd", "qstart", "qnext", "qdrain", "queryf", "queryfd", "qfail", "qabandon", "queryp",
+                       "querypd", "queryr")
                 for nm in names)
             pin_seen = 0
             for i in range(n):
